@@ -270,6 +270,15 @@ def run(ck, ctx):
         n_f = 0
         for qual, which, ref, roles, what in MODEL_FORMULAS:
             for fi, site, loc, ret, pc in log_of(qual)[:1]:
+                # intermediate quantities are looked up by the name the code gives them today; if a local was renamed
+                # or inlined, the quantity is searched by its formula instead (or the formula is left undecided with
+                # a NOTE when one of its inputs has no name any more) - a name is not an anchor of the property
+                lost = [src[6:].split("[")[0] for src in roles.values() if src.startswith("local:") and
+                        src[6:].split("[")[0] not in loc]
+                if lost:
+                    ck.note(f"{qual}: local quantity {lost[0]} not found by name - '{what}' is not decided")
+                    continue
+                by_search = which.startswith("local:") and which[6:] not in loc
                 atoms = {}
                 for role, src in roles.items():
                     if src.startswith("local:"):
@@ -287,10 +296,38 @@ def run(ck, ctx):
                         atoms[role] = ("sub", I.res(loc[base], K.st), ixn)
                     else:
                         atoms[role] = loc[src]
-                if which.startswith("local:"):
+                if by_search:
+                    val = None
+                elif which.startswith("local:"):
                     val = loc[which[6:]]
                 else:
                     val = ret if which == "return" else I.elem(ret, int(which[7:-1]))
+                if by_search:
+                    resolved = {r_: (a_ if not isinstance(a_, tuple) else I.mk("Subscript", (a_[1], a_[2])))
+                                for r_, a_ in atoms.items()}
+                    Ps = facet(resolved)
+                    ks = {g.vn(n) for n in resolved.values()} | {g.vn(I.res(n, K.st)) for n in resolved.values()}
+                    Ps.opaque = (lambda n, _k=ks, _o=Ps.opaque: _o(n) or g.vn(n) in _k)
+                    envs = {r_: Ps.of(I.res(n, K.st)) for r_, n in resolved.items()}
+                    envs["pi"] = Ps.of(I.res(I.load_attr(K.obj, "pi", K.st, None, None), K.st))
+                    found = False
+                    try:
+                        want_s = _ref_with_pi(Ps, ref, envs)
+                        for cand in walk([I.res(ret, K.st)]):
+                            if cand.fn is None or cand.fn.qualname != qual or cand.op in ("Const", "Tuple", "Slice"):
+                                continue
+                            try:
+                                if Ps.equal(_bare(Ps.of(cand)), want_s):
+                                    found = True
+                                    break
+                            except Exception:       # noqa: BLE001
+                                continue
+                    except Exception:       # noqa: BLE001
+                        found = None
+                    n_f += 1
+                    ck.ob("R06.7", f"{what}: a quantity of {qual.split('.')[-1]} == {ref}", found, I.res(ret, K.st), qual,
+                          "searched by formula (no local of that name)", construct=f"{qual}: {what}")
+                    continue
                 val = I.res(val, K.st)          # arrays updated in place: their final version
                 for role, a_ in list(atoms.items()):
                     if isinstance(a_, tuple):
